@@ -272,7 +272,7 @@ fn dev_values(thorough: bool) -> Vec<u64> {
 }
 
 #[derive(Default)]
-struct Acc { col: Collector, wide_points: u64, runs: u64, capped: u64, draws_max: usize, outcomes: std::collections::BTreeSet<String>, distinct_texts: std::collections::HashSet<u64>, nondet: Vec<String>, dev_points: u64, pair_runs: u64, clock_runs: u64 }
+struct Acc { col: Collector, samples: Vec<Value>, wide_points: u64, runs: u64, capped: u64, draws_max: usize, outcomes: std::collections::BTreeSet<String>, distinct_texts: std::collections::HashSet<u64>, nondet: Vec<String>, dev_points: u64, pair_runs: u64, clock_runs: u64 }
 
 fn fnv(s: &str) -> u64 { let mut h = 0xcbf29ce484222325u64; for b in s.bytes() { h ^= b as u64; h = h.wrapping_mul(0x100000001b3); } h }
 
@@ -300,7 +300,7 @@ pub fn run(ctx: &Ctx) -> i32 {
             let r = run_chain(&sc.value, s);
             acc.draws_max = acc.draws_max.max(r.draws);
             if r.capped { acc.capped += 1; acc.outcomes.insert("draw-cap".into()); return r.draws; }
-            if let Some(t) = &r.mt_text { acc.distinct_texts.insert(fnv(t)); }
+            if let Some(t) = &r.mt_text { acc.distinct_texts.insert(fnv(t)); if acc.samples.len() < 1 && acc.runs % 997 == 1 { acc.samples.push(json!({"scenario": format!("{}/{}", sc.mt, sc.name), "schedule": s.to_json(), "draws": r.draws, "published": t.chars().take(400).collect::<String>(), "verdict": r.verdict.as_ref().map(|v| v.0.clone()).unwrap_or("ok".into())})); } }
             match r.verdict {
                 None => { acc.outcomes.insert("ok".into()); }
                 Some((clause, detail)) => {
@@ -365,15 +365,20 @@ pub fn run(ctx: &Ctx) -> i32 {
         }
     });
     let mut runs = 0; let mut capped = 0; let mut dmax = 0; let mut outcomes = std::collections::BTreeSet::new(); let mut texts = 0usize; let mut nondet = vec![];
-    let mut per: Vec<Value> = vec![]; let (mut devp, mut pairs, mut clockr, mut wide) = (0, 0, 0, 0u64);
+    let mut samples: Vec<Value> = vec![]; let mut per: Vec<Value> = vec![]; let (mut devp, mut pairs, mut clockr, mut wide) = (0, 0, 0, 0u64);
     for (k, a) in accs.into_iter().enumerate() {
         // par_for returns one accumulator per worker, not per item: only totals are meaningful
         let _ = k;
         runs += a.runs; capped += a.capped; dmax = dmax.max(a.draws_max); outcomes.extend(a.outcomes); texts += a.distinct_texts.len(); nondet.extend(a.nondet);
-        devp += a.dev_points; pairs += a.pair_runs; clockr += a.clock_runs; wide += a.wide_points;
+        samples.extend(a.samples.clone()); devp += a.dev_points; pairs += a.pair_runs; clockr += a.clock_runs; wide += a.wide_points;
         col.merge(a.col);
     }
-    per.push(json!({"note": "per-scenario numbers are not kept; totals below"}));
+    per.push(json!({"note": "per-scenario numbers are not kept; totals below"})); samples.truncate(6);
+    ev.set("evaluations", json!(runs));
+    ev.set("distinct_nontrivial", json!(texts));
+    ev.set("exhaustive", json!(false));
+    ev.set("rule", json!("one evaluation = one execution of Generate -> Publish -> Validate -> Parse on the real plugins under one (scenario file, draw schedule, clock); schedules: base streams (all-min, all-max, splitmix streams), every single deviation of every draw point over the quantile alphabet, extra values at wide draw points, pairs of extreme deviations (thorough), the clock alphabet; distinct = distinct published MT texts"));
+    ev.set("samples", json!(samples));
     ev.set("chain_executions", json!(runs));
     ev.set("draw_points_deviated", json!(devp));
     ev.set("pair_runs", json!(pairs));
